@@ -8,7 +8,9 @@ package main
 // the tunnel's real key and can say of every payload the handler writes whether it authenticates
 // under that key.
 //
-//	hs new tcp|fwd|udp|shell <failk>     fresh handler; the writer fails its <failk>-th data write once
+//	(kind `file`: a real Agent with file transfer enabled as the exit of a DOWNLOAD stream, its frames to the
+//	 peer captured through a handshake-less peer connection; one transfer per stream)
+//	hs new tcp|fwd|udp|shell|file <failk>     fresh handler; the writer fails its <failk>-th data write once
 //	                                     (then recovers); 0 = no fault                  -> ok
 //	hs open <stream> <req> fresh|same    (re)send an open for <stream>; `same` re-uses the ingress
 //	                                     ephemeral key of the previous open on that stream
@@ -23,6 +25,8 @@ package main
 import (
 	"bytes"
 	"context"
+	"os"
+	"path/filepath"
 	"encoding/hex"
 	"fmt"
 	"io"
@@ -34,10 +38,15 @@ import (
 
 	"golang.org/x/crypto/chacha20poly1305"
 
+	"github.com/postalsys/muti-metroo/internal/agent"
+	"github.com/postalsys/muti-metroo/internal/config"
 	"github.com/postalsys/muti-metroo/internal/crypto"
 	"github.com/postalsys/muti-metroo/internal/exit"
+	"github.com/postalsys/muti-metroo/internal/filetransfer"
 	"github.com/postalsys/muti-metroo/internal/forward"
+	"github.com/postalsys/muti-metroo/internal/icmp"
 	"github.com/postalsys/muti-metroo/internal/identity"
+	"github.com/postalsys/muti-metroo/internal/peer"
 	"github.com/postalsys/muti-metroo/internal/protocol"
 	"github.com/postalsys/muti-metroo/internal/shell"
 	"github.com/postalsys/muti-metroo/internal/udp"
@@ -118,6 +127,36 @@ func (w *c04hWriter) WriteUDPOpenErr(peerID identity.AgentID, streamID uint64, e
 	return nil
 }
 
+// c04hFrameSink is the io.Writer behind the capturing peer connection of the `file` kind: every Write is
+// one wire-encoded frame; it is decoded and routed into the capturing writer (a failing data write makes
+// the agent's Connection.WriteFrame fail).
+type c04hFrameSink struct {
+	w    *c04hWriter
+	peer identity.AgentID
+}
+
+func (k *c04hFrameSink) Write(p []byte) (int, error) {
+	f, err := protocol.NewFrameReader(bytes.NewReader(p)).Read()
+	if err != nil {
+		return len(p), nil
+	}
+	switch f.Type {
+	case protocol.FrameStreamData:
+		if err := k.w.dataWrite(f.StreamID, f.Payload); err != nil {
+			return 0, err
+		}
+	case protocol.FrameStreamOpenAck:
+		if a, err := protocol.DecodeStreamOpenAck(f.Payload); err == nil {
+			k.w.WriteStreamOpenAck(k.peer, f.StreamID, a.RequestID, nil, 0, a.EphemeralPubKey)
+		}
+	case protocol.FrameStreamOpenErr:
+		if e, err := protocol.DecodeStreamOpenErr(f.Payload); err == nil {
+			k.w.WriteStreamOpenErr(k.peer, f.StreamID, e.RequestID, e.ErrorCode, e.Message)
+		}
+	}
+	return len(p), nil
+}
+
 type c04hIngress struct {
 	priv, pub [32]byte
 	req       uint64
@@ -136,6 +175,8 @@ type c04hState struct {
 	fwdH    *forward.Handler
 	udpH    *udp.Handler
 	shellH  *shell.Handler
+	fileA   *agent.Agent
+	fileDir string
 	tcpEcho net.Listener
 	udpEcho net.PacketConn
 	ing     map[uint64]*c04hIngress
@@ -157,6 +198,9 @@ func (s *c04hState) stop() {
 	}
 	if s.udpEcho != nil {
 		s.udpEcho.Close()
+	}
+	if s.fileDir != "" {
+		os.RemoveAll(s.fileDir)
 	}
 	s.connMu.Lock()
 	for _, c := range s.conns {
@@ -234,6 +278,21 @@ func c04hNew(kind string, failK int) (*c04hState, error) {
 		cfg.Enabled = true
 		cfg.Whitelist = []string{"*"}
 		s.shellH = shell.NewHandler(shell.NewExecutor(cfg), s.w, quiet)
+	case "file":
+		dir, err := os.MkdirTemp("", "verif-c04h-")
+		if err != nil {
+			return nil, err
+		}
+		s.fileDir = dir
+		cfg := config.Default()
+		cfg.Agent.DataDir = filepath.Join(dir, "data")
+		cfg.Agent.LogLevel = "error"
+		cfg.FileTransfer.Enabled = true
+		cfg.FileTransfer.AllowedPaths = []string{"*"}
+		if s.fileA, err = agent.New(cfg); err != nil {
+			return nil, err
+		}
+		peer.VerifC04CapturePeer(agent.VerifC04PeerMgr(s.fileA), s.fileA.ID(), s.peer, &c04hFrameSink{w: s.w, peer: s.peer})
 	default:
 		return nil, fmt.Errorf("unknown kind")
 	}
@@ -297,6 +356,8 @@ func (s *c04hState) open(stream, req uint64, mode string) string {
 	case "shell":
 		code, pub := s.shellH.HandleStreamOpen(s.peer, stream, req, false, in.pub)
 		ack = &c04hAck{stream: stream, req: req, pub: pub, ok: code == 0}
+	case "file":
+		agent.VerifC04FileOpen(s.fileA, s.peer, stream, req, in.pub)
 	}
 	if ack == nil {
 		s.waitFor(60*time.Second, func() bool { return len(s.w.acks) > n0 }) // event-driven; only a handler that never answers pays this
@@ -354,6 +415,20 @@ func (s *c04hState) ping(stream uint64, payload []byte) string {
 				s.udpH.HandleUDPDatagram(s.peer, stream, &protocol.UDPDatagram{AddressType: protocol.AddrTypeIPv4, Address: a.IP.To4(), Port: uint16(a.Port), Data: ct})
 			}
 			resend()
+		case "file":
+			// one download per stream: the request metadata names a file that holds the payload
+			if in.shellMeta {
+				sent = false
+			} else {
+				in.shellMeta = true
+				path := filepath.Join(s.fileDir, fmt.Sprintf("f-%d.bin", stream))
+				must(os.WriteFile(path, payload, 0o600))
+				meta, err := filetransfer.EncodeMetadata(&filetransfer.TransferMetadata{Path: path, Compress: false})
+				must(err)
+				ct, err := in.key.Encrypt(meta)
+				must(err)
+				agent.VerifC04FileData(s.fileA, s.peer, stream, ct, 0)
+			}
 		case "shell":
 			marker = []byte(hex.EncodeToString(payload))
 			if in.shellMeta {
@@ -476,12 +551,75 @@ func (s *c04hState) close(stream uint64) string {
 		s.udpH.HandleUDPClose(s.peer, stream)
 	case "shell":
 		s.shellH.HandleStreamClose(stream)
+	case "file":
+		// the download ends by itself; nothing to relay
 	}
 	if in := s.ing[stream]; in != nil {
 		in.closed = true // late frames of this handshake still have to authenticate under its key
 	}
 	return "ok"
 }
+
+// c04IcmpKx: both ICMP key-derivation call sites, live: the exit's Handler.performKeyExchange on a real
+// Session (no raw socket needed) and the ingress's agent.deriveICMPSessionKey on the ack key; then one echo
+// payload through Session.Decrypt / Session.Encrypt and back; then the same again on the SAME session (a
+// repeated ICMP_OPEN).  -> icmpkx agree <a1> <a2> rt <0|1> leak <n>
+func c04IcmpKx(req uint64, payload []byte) string {
+	quiet := slog.New(slog.NewTextHandler(io.Discard, nil))
+	w := &c04hWriter{data: map[uint64][][]byte{}, changed: make(chan struct{}, 1)}
+	h := icmp.NewHandler(icmp.DefaultConfig(), c04hIcmpWriter{w}, quiet)
+	defer h.Close()
+	peerID, _ := identity.NewAgentID()
+	sess := icmp.NewSession(1, req, peerID, net.IPv4(127, 0, 0, 1))
+	defer sess.Close()
+	agree := [2]int{}
+	rt, leak := 1, 0
+	for round := 0; round < 2; round++ {
+		priv, pub, err := crypto.GenerateEphemeralKeypair()
+		must(err)
+		exitPub, err := icmp.VerifC03KeyExchange(h, sess, &protocol.ICMPOpen{RequestID: req, DestIP: net.IPv4(127, 0, 0, 1).To4(), TTL: 64}, pub)
+		if err != nil {
+			return "icmpkx err"
+		}
+		ik, err := agent.VerifC04DeriveICMP(&priv, pub, exitPub, req)
+		if err != nil || ik == nil {
+			return "icmpkx err"
+		}
+		ek := sess.GetSessionKey()
+		if ek != nil && ek.Key() == ik.Key() {
+			agree[round] = 1
+		}
+		ct, err := ik.Encrypt(payload)
+		must(err)
+		if len(payload) >= 8 && bytes.Contains(ct, payload) {
+			leak++
+		}
+		pt, err := sess.Decrypt(ct)
+		if err != nil || !bytes.Equal(pt, payload) {
+			rt = 0
+			continue
+		}
+		back, err := sess.Encrypt(pt)
+		if err != nil {
+			rt = 0
+			continue
+		}
+		if len(payload) >= 8 && bytes.Contains(back, payload) {
+			leak++
+		}
+		if pt2, err := ik.Decrypt(back); err != nil || !bytes.Equal(pt2, payload) {
+			rt = 0
+		}
+	}
+	return fmt.Sprintf("icmpkx agree %d %d rt %d leak %d", agree[0], agree[1], rt, leak)
+}
+
+type c04hIcmpWriter struct{ w *c04hWriter }
+
+func (c04hIcmpWriter) WriteICMPOpenAck(identity.AgentID, uint64, *protocol.ICMPOpenAck) error { return nil }
+func (c04hIcmpWriter) WriteICMPOpenErr(identity.AgentID, uint64, *protocol.ICMPOpenErr) error { return nil }
+func (c04hIcmpWriter) WriteICMPEcho(identity.AgentID, uint64, *protocol.ICMPEcho) error       { return nil }
+func (c04hIcmpWriter) WriteICMPClose(identity.AgentID, uint64, uint8) error                   { return nil }
 
 // c04hRun executes one `hs …` op (also used by engine c03 through c03Handshake).
 func c04hRun(f []string) string {
@@ -490,6 +628,8 @@ func c04hRun(f []string) string {
 	}
 	u := func(s string) uint64 { v, err := strconv.ParseUint(s, 10, 64); must(err); return v }
 	switch {
+	case f[1] == "icmpkx" && len(f) == 4:
+		return c04IcmpKx(u(f[2]), unhexTok(f[3]))
 	case f[1] == "new" && len(f) == 4:
 		c04hCur.stop()
 		c04hCur = nil
@@ -514,16 +654,22 @@ func c04hRun(f []string) string {
 // c04hGen writes handler-level cases: multi-step handshakes (duplicate open with the same / a fresh
 // ingress key, re-open after close, the same request id on another stream) and write-fault cases.
 func c04hGen(w interface{ WriteString(string) (int, error) }, r *rng, nPerKind int, faults bool) {
+	for i := 0; i < 2+nPerKind; i++ {
+		fmt.Fprintf(w.(io.Writer), "reset\nhs icmpkx %d %s\n", r.u64()>>uint(r.intn(64)), hex.EncodeToString(r.bytes(r.pick(0, 8, 56, 1400))))
+	}
 	kindNow := ""
 	pl := func() string {
 		if kindNow == "shell" {
 			return hex.EncodeToString(r.bytes(r.pick(16, 32, 100)))
 		}
+		if kindNow == "file" {
+			return hex.EncodeToString(r.bytes(r.pick(16, 1000, 16384, 40000)))
+		}
 		return hex.EncodeToString(r.bytes(r.pick(16, 32, 200, 1000)))
 	}
-	for _, kind := range []string{"udp", "tcp", "fwd", "shell"} {
+	for _, kind := range []string{"udp", "tcp", "fwd", "shell", "file"} {
 		kindNow = kind
-		if kind != "shell" {
+		if kind != "shell" && kind != "file" {
 			// always: the scripted multi-step handshake (duplicate open with the same and with a fresh ingress
 			// key, close + re-open, the same request id on another stream), a ping after every step
 			fmt.Fprintf(w.(io.Writer), "reset\nhs new %s 0\nhs open 1 500 fresh\nhs ping 1 %s\nhs open 1 500 same\nhs ping 1 %s\nhs open 1 500 fresh\nhs ping 1 %s\n"+
@@ -543,7 +689,7 @@ func c04hGen(w interface{ WriteString(string) (int, error) }, r *rng, nPerKind i
 					fmt.Fprintf(w.(io.Writer), "hs open %d %d fresh\nhs ping %d %s\n", sid, req, sid, pl())
 					req++
 					live = append(live, sid)
-				case kind == "shell": // a shell stream runs one command: only fresh streams (old sessions tear down asynchronously)
+				case kind == "shell" || kind == "file": // a shell / file stream runs one command / one transfer: only fresh streams (old sessions tear down asynchronously)
 					sid := next
 					next += 2
 					rq := req
@@ -574,9 +720,15 @@ func c04hGen(w interface{ WriteString(string) (int, error) }, r *rng, nPerKind i
 			}
 		}
 		if faults {
-			for _, k := range []int{1, 2} {
-				fmt.Fprintf(w.(io.Writer), "reset\nhs new %s %d\nhs open 1 77 fresh\nhs ping 1 %s\nhs ping 1 %s\nhs ping 1 %s\n", kind, k, pl(), pl(), pl())
+			// k = 1 always (the first data write fails once, then the link recovers); k = 2 when asked for more
+			ks := []int{1}
+			if nPerKind > 1 {
+				ks = []int{1, 2}
+			}
+			for _, k := range ks {
+				fmt.Fprintf(w.(io.Writer), "reset\nhs new %s %d\nhs open 1 77 fresh\nhs ping 1 %s\nhs ping 1 %s\n", kind, k, pl(), pl())
 			}
 		}
+
 	}
 }
